@@ -329,6 +329,12 @@ def check(run):
                               qgen=lambda r: world.rand_nested_query(r))
     rejects = qobs.judge(run, cases, name="QueryCheck-nested")
     report(run, "C01", cases, meta, rejects, "c01-nested")
+    # ... on indexes that have the shape the nested queries are meant for (groups of a parent and its children)
+    cases, meta = build_cases(run, rng, 5 if quick else 50, 12 if quick else 20, ndocs=(6, 16),
+                              paths=tuple(x for x in PATHS if x != "query.docs"),
+                              worldgen=lambda r, n: (world.family_docs(r, n), world.family_query))
+    rejects = qobs.judge(run, cases, name="QueryCheck-families")
+    report(run, "C01", cases, meta, rejects, "c01-families")
     cases, meta = big_cases(run, rng, 2 if quick else 12)
     rejects = qobs.judge(run, cases, name="QueryCheck-large", chunk=2)
     report(run, "C01", cases, meta, rejects, "c01-large")
